@@ -68,6 +68,7 @@ FINGERPRINTED = [
     ('bumble/crypto/builtin.py', '_EllipticCurve.__post_init__', 'curve_post_init'),
     ('bumble/crypto/builtin.py', 'EccKey.__init__', 'ecc_key_init'),
     ('bumble/crypto/builtin.py', 'EccKey.from_private_key_bytes', 'ecc_from_private_key_bytes'),
+    ('bumble/smp.py', 'AddressResolver.__init__', 'address_resolver_init'),
     ('bumble/smp.py', 'AddressResolver.resolve', 'address_resolver_resolve'),
     ('bumble/hci.py', 'Address.__bytes__', 'address_bytes'),
 ]
@@ -78,6 +79,7 @@ CLASS_SHAPES = [
     ('bumble/crypto/builtin.py', '_JacobianPoint', 'jacobian_class'),
     ('bumble/crypto/builtin.py', 'EccKey', 'ecc_key_class'),
     ('bumble/crypto/builtin.py', '_CMAC', 'cmac_class'),
+    ('bumble/smp.py', 'AddressResolver', 'address_resolver_class'),
 ]
 
 # calls with keyword arguments: parameter order and defaults (None = required)
